@@ -70,11 +70,11 @@ fn check_dir(cfg: &FileCfg, fam: &[FamFile], expected_stream: &[u8], avail_rotat
     if initialized {
         let slack = usize::from(direct);
         let total = c.plain_rotated + c.gz_rotated;
-        let want_total = (k + m).min(avail_rotated).saturating_sub(slack);
+        let want_total = k.saturating_add(m).min(avail_rotated).saturating_sub(slack);
         if total < want_total {
             return Err((
                 "fewer-files-kept-than-allowed".into(),
-                format!("{when}: {total} rotated files survive, but {avail_rotated} were produced and the limits allow {}; files: {}", k + m, listing()),
+                format!("{when}: {total} rotated files survive, but {avail_rotated} were produced and the limits allow {}; files: {}", k.saturating_add(m), listing()),
             ));
         }
         if !direct && c.plain_rotated < k.min(avail_rotated) {
